@@ -350,7 +350,6 @@ package state
 
 //@ func StakeAccumulatorCache.CheckStakeClaims
 //@   props C10 C14
-//@   requires c != nil
 //@   ensures-local err != nil && defined(acct) && acct != nil && staking.TotalClaimsOK(&acct.Escrow.StakeAccumulator, c.thresholds, nil) ==> err == staking.ErrInsufficientStake
 //@   note insufficient stake is reported as the sentinel staking.ErrInsufficientStake itself, not wrapped: the roothash and scheduler applications branch on the error's identity, and any other error from here stops block processing
 
